@@ -39,7 +39,15 @@ def formula_kernels(fb):
         tys = [fb.ty(b["locals"][i]["t"]) for i in range(1, 9)]
         if "FormulaToken" not in tys[0] or tys[1:5] != ["&u32"] * 4 or tys[5:7] != ["&str", "&str"] or tys[7] != "bool":
             continue
-        roles = {hr[t["fn"]] for _, t in fb.calls_in(b) if t.get("fn") in hr}
+        # the scalar kernel is applied in the function itself, in one of its closures, or in the private function it hands
+        # each piece of a reference to
+        bodies = [b] + [fb.mir[c] for c in fb.mir if c.startswith(d + "::{closure")]
+        for bb in list(bodies):
+            for _, t in fb.calls_in(bb):
+                f = t.get("fn", "")
+                if f in fb.mir and f.startswith("helper::formula::") and fb.mir[f].get("vis") != "pub" and f not in hr:
+                    bodies.append(fb.mir[f])
+        roles = {hr[t["fn"]] for bb in bodies for _, t in fb.calls_in(bb) if t.get("fn") in hr}
         if len(roles) == 1:
             out[d] = next(iter(roles))
     return out, hr
@@ -68,8 +76,10 @@ def rule_kernels(chk, fb):
         floor=1,
     )
     for d, role in sorted(kernels.items()):
-        b = fb.mir[d]
+        eff, amap = C09.effective_kernel(fb, d)
+        b = fb.mir[eff]
         chk.touch(d)
+        chk.touch(eff)
         cfg = CFG(b)
         fl = Flow(fb, b)
         sites = [(bi, t) for bi, t in fl.calls(lambda t: t.get("fn") in hr)]
@@ -80,8 +90,8 @@ def rule_kernels(chk, fb):
             if axis is None:
                 chk.ob(rc, "%s:shift(?)" % d, False, where="%s:%s" % (b["file"], t["ln"]), detail="scalar kernel applied to a value deriving from components %s of the parsed coordinate" % comp)
                 continue
-            want = (2, 3) if axis == "col" else (4, 5)
-            got = tuple(sorted(x[1] for x in fl.atoms(t["args"][i], through_calls=False) if x[0] == "arg")[0:1] for i in (1, 2))
+            want = (amap.get(2), amap.get(3)) if axis == "col" else (amap.get(4), amap.get(5))
+            got = tuple(sorted(C09.arg_ids(eff, fl.atoms(t["args"][i], through_calls=False)) - ({1, 2} if "{closure" in eff else set()))[0:1] for i in (1, 2))
             got = tuple(g[0] if g else None for g in got)
             role_ok = hr[t["fn"]] == role
             chk.ob(rc, "%s:shift(%s)" % (d, axis), got == want and role_ok, where="%s:%s" % (b["file"], t["ln"]),
@@ -95,7 +105,7 @@ def rule_kernels(chk, fb):
                 fields = {y[2] for y in at if y[0] == "field" and y[1] == "tuple"}
                 if not any(y[0] == "call" and STOP(y[1]) for y in at):
                     continue
-                issome = [y for y in at if y[0] == "call" and y[1] == "std::option::Option::<T>::is_some"]
+                issome = [y for y in at if y[0] == "call" and y[1] in ("std::option::Option::<T>::is_some", "std::option::Option::<T>::is_none")]
                 if issome:
                     for y in issome:
                         ct = b["blocks"][y[2]]["t"]
@@ -109,7 +119,7 @@ def rule_kernels(chk, fb):
             chk.ob(rw, "%s:shift(%s):presence" % (d, axis), present <= {own}, where="%s:%s" % (b["file"], t["ln"]),
                    detail="shift of the %s component requires presence of component(s) %s (own component is %s)" % (axis, sorted(present), own),
                    key="%s:shift(%s):presence:%s" % (d, axis, ",".join(sorted(present))))
-        C09.one_sided(chk, fb, d, "C08.c")
+        C09.one_sided(chk, fb, eff, "C08.c", name=d)
         if role == "remove":
             # an error value assigned under a band predicate
             band = [f for f, r in hr.items() if r == "band"]
@@ -312,10 +322,17 @@ def rule_guard_sources(chk, fb):
     )
     kernels, hr = formula_kernels(fb)
     for d, role in sorted(kernels.items()):
-        b = fb.mir[d]
+        eff, amap = C09.effective_kernel(fb, d)
+        b = fb.mir[eff]
         cfg = CFG(b)
         fl = Flow(fb, b)
         split = {bi for bi, t in fl.calls(lambda t: t.get("fn", "").endswith("get_split_range"))}
+        # in a per-piece helper the text of the reference arrives as the parameter no kernel argument is mapped to
+        piece_params = {i for i in range(1, b["argc"] + 1) if eff != d and i not in amap.values() and "str" in fb.ty(b["locals"][i]["t"]).lower()}
+
+        def from_text(aa):
+            return any(y[0] == "call" and y[2] in split for y in aa) or any(y[0] == "arg" and y[1] in piece_params for y in aa)
+
         for n, (bi, t) in enumerate(fl.calls(lambda t: t.get("fn") in hr)):
             bad = []
             for x in cfg.control_deps_transitive(bi):
@@ -327,7 +344,7 @@ def rule_guard_sources(chk, fb):
                         ct = b["blocks"][a[2]]["t"]
                         for arg in ct["args"]:
                             aa = fl.atoms(arg)
-                            if any(y[0] == "call" and y[2] in split for y in aa) and not fb.mir[a[1]].get("self_ty", "").endswith("FormulaToken"):
+                            if from_text(aa) and not fb.mir[a[1]].get("self_ty", "").endswith("FormulaToken"):
                                 bad.append(a[1].split("::")[-1])
             chk.touch(d)
             chk.ob(rid, "%s:shift#%d" % (d, n), not bad, where="%s:%s" % (b["file"], t["ln"]), detail="text predicates guarding the shift besides the coordinate parser: %s" % (sorted(set(bad)) or "none"))
@@ -509,6 +526,7 @@ def run(chk, fb, tier):
     C09._FB[:] = [fb]
     rule_kernels(chk, fb)
     C09.rule_whole_reference(chk, fb, list(formula_kernels(fb)[0]), "C08.h", floor=2)
+    C09.rule_every_token(chk, fb, list(formula_kernels(fb)[0]), "C08.i", floor=2)
     rule_sheet_match(chk, fb)
     rule_chain(chk, fb)
     # C08.e every holder of references is visited (fan-out of the sheet-aware family)
